@@ -665,13 +665,14 @@ func c04Instance(cs c04Case, fail func(string, string, ...interface{}) core.Outc
 		}
 		if cs.Point == -1 || cs.Point == pi || cs.Point == pi+1000 {
 			l := fmt.Sprintf("/*P%d:%s*/", pi, p.Name)
-			p.List.Append(l)
 			labels = append(labels, l)
 			if cs.Point == pi+1000 {
-				// a second comment on the same point
+				// a second comment on the same point (the first put in front of it through Prepend)
 				l2 := fmt.Sprintf("/*Q%d:%s*/", pi, p.Name)
-				p.List.Append(l2)
+				apiPutAll(p.List, l, l2)
 				labels = append(labels, l2)
+			} else {
+				apiPutAll(p.List, l)
 			}
 		}
 	}
